@@ -110,6 +110,13 @@ def object_specs(rng, n_random, tier, kinds=None, with_tables=True):
         from rtc.c12_multiclass import table_mc_case
         for i in range(4 if tier == 'quick' else 30):
             specs.append(('MulticlassCarver', table_mc_case(rng, i), dict(min_freq=0.05, max_n_mod=rng.choice([2, 3]), sort_by='tschuprowt', dropna=True, output_dtype='float', min_freq_mod=None)))
+    # the utility discretizers used directly get a minimum share of the objects (many-level ordinal rankings included: a re-run of the grouping merges further there)
+    for k in ('OrdinalDiscretizer', 'CategoricalDiscretizer', 'ContinuousDiscretizer'):
+        if k not in kinds: continue
+        for j in range(max(4, n_random // 15)):
+            case = zoo.random_case(rng, degenerate=('o_many' if (k == 'OrdinalDiscretizer' and j % 2 == 0) else False), variants=True)
+            cfg = dict(rng.choice(zoo.CONFIGS)); cfg['min_freq_mod'] = None
+            if applicable(k, case): specs.append((k, case, cfg))
     if with_tables:
         for case, cfg in table_cases(rng, max(10, n_random // 3), tier):
             k = 'BinaryCarver' if case['target'] == 'binary' else 'ContinuousCarver'
